@@ -2,7 +2,7 @@
    Only theorem statements; proofs in Proofs/RouteProofs.v. *)
 From RcProxy Require Import Base.Bytes Base.Dec Gen.Generated Spec.RespGrammar Spec.RouteSpec Spec.CommandSpec
   Model.Route Proofs.CommandsProofs Proofs.RouteProofs
-  Model.Proxy Proofs.ProxyOrderProofs Proofs.ProxyRouteProofs.
+  Model.ClientCodec Model.Proxy Proofs.ProxyOrderProofs Proofs.ProxyRouteProofs.
 Open Scope N_scope.
 
 (* for every replica-set (master, replicas with any pool/ban state), every command type, either
@@ -56,18 +56,31 @@ Proof. exact scripts_and_scans_go_to_master. Qed.
 Print Assumptions C04_scripts_and_scans.
 
 
-(* ... and delivery, at the level of the event loop, for EVERY history: a fragment written to (or
-   queued for) a backend connection - unless a node redirected it there - is on a connection to
-   the node that owns the fragment's slot in the proxy's slot table; the connections a pool holds
-   go to that pool's address (also after reconnects, rotation and eviction of dead connections). *)
+(* ... and delivery, at the level of the event loop, for EVERY history (including histories in
+   which the ticker applies new topologies while requests are in flight): a fragment written to (or
+   queued for) a backend connection - unless a node redirected it there - is on a connection to the
+   node that owned the fragment's slot in the proxy's slot table when the request was routed
+   (routed: the request's routing record says so; C04_routing_record: that record is the slot table
+   of that moment); the connections a pool holds go to that pool's address (also after reconnects,
+   rotation, eviction of dead connections and topology changes). *)
 Theorem C04_delivered_to_the_owner : forall cfg pools slots evs st s sv mid slot,
   Forall (fun p => pp_conns p = []) pools ->
   run (init_state cfg pools slots) evs = ROk st -> lookup s (servers st) = Some sv ->
   In (FReq mid slot) (map fst (ps_written sv) ++ ps_outq sv) ->
   okey st (FReq mid slot) <> None ->
-  slot_master st slot = Some (ps_addr sv).
+  routed st mid slot (ps_addr sv).
 Proof. exact delivered_to_the_owner. Qed.
 Print Assumptions C04_delivered_to_the_owner.
+
+Theorem C04_routing_record : forall st c m st1 targets,
+  (N.eqb (cm_type m) UNKNOWN || (Sentinel <=? cm_type m))%bool = false ->
+  N.eqb (cm_type m) ReqTooLarge = false -> N.eqb (cm_type m) ReqWrongArgumentsNumber = false ->
+  N.eqb (cm_type m) ReqPing = false -> N.eqb (cm_type m) ReqQuit = false -> N.eqb (cm_type m) ReqAuth = false ->
+  resolve st (by_slot (cm_body m)) = (st1, inl targets) ->
+  exists pm, lookup (next_mid st1) (msgs (on_request st c m)) = Some pm /\
+             pm_route pm = map (fun sf => (fst sf, slot_master st (fst sf))) (by_slot (cm_body m)).
+Proof. exact routing_record_is_the_slot_table. Qed.
+Print Assumptions C04_routing_record.
 
 Theorem C04_pools_hold_their_own_connections : forall cfg pools slots evs st p s sv,
   Forall (fun p => pp_conns p = []) pools ->
